@@ -8,6 +8,8 @@ use tmelcrypt::{Ed25519PK, Ed25519SK};
 pub struct PanicInfo {
     pub location: String,
     pub message: String,
+    /// innermost frames inside the code under test (melstf / melvm / melstructs / melpow), from the backtrace
+    pub callers: Vec<String>,
 }
 
 impl PanicInfo {
@@ -26,7 +28,11 @@ impl PanicInfo {
             }
             None => loc.trim_start_matches("/repo/").to_string(),
         };
-        format!("panic@{}|{}", loc, msg_class(&self.message))
+        let via = match self.callers.first() {
+            Some(c) if !loc.starts_with("src/") && !loc.starts_with("lib/") => format!("<-{}", c),
+            _ => String::new(),
+        };
+        format!("panic@{}{}|{}", loc, via, msg_class(&self.message))
     }
 }
 
@@ -89,7 +95,34 @@ pub fn install_panic_hook() {
         let mut g = slots()[shard_slot()].lock().unwrap_or_else(|e| e.into_inner());
         // keep the FIRST panic of a catch scope (rayon may produce several)
         if g.is_none() {
-            *g = Some(PanicInfo { location: loc, message: msg });
+            let bt = std::backtrace::Backtrace::force_capture().to_string();
+            let mut callers = vec![];
+            for line in bt.lines() {
+                let l = line.trim();
+                if let Some(rest) = l.strip_prefix("at ") {
+                    let short = if let Some(r) = rest.strip_prefix("/repo/") {
+                        Some(r.to_string())
+                    } else if let Some(i) = rest.find("/registry/src/") {
+                        let r = &rest[i + "/registry/src/".len()..];
+                        let r = r.split_once('/').map(|x| x.1).unwrap_or(r);
+                        if r.starts_with("melstructs") || r.starts_with("melpow") || r.starts_with("novasmt") {
+                            Some(r.to_string())
+                        } else {
+                            None
+                        }
+                    } else {
+                        None
+                    };
+                    if let Some(sh) = short {
+                        // drop the column
+                        let sh = sh.rsplit_once(':').map(|x| x.0.to_string()).unwrap_or(sh);
+                        if !callers.contains(&sh) && callers.len() < 4 {
+                            callers.push(sh);
+                        }
+                    }
+                }
+            }
+            *g = Some(PanicInfo { location: loc, message: msg, callers });
         }
     }));
 }
@@ -108,7 +141,7 @@ pub fn catch<R>(f: impl FnOnce() -> R) -> Result<R, PanicInfo> {
                 } else {
                     "<non-string panic>".into()
                 };
-                PanicInfo { location: "?".into(), message: msg }
+                PanicInfo { location: "?".into(), message: msg, callers: vec![] }
             }))
         }
     }
